@@ -70,6 +70,7 @@ func TestVerifC27(t *testing.T) {
 		{PathName: "cam", Video: true, Audio: true, GOP: 12, FPS: 30, Frames: 100, SegmentDuration: time.Second, PartDuration: 150 * time.Millisecond},
 		{PathName: "cam", Video: true, GOP: 3, FPS: 25, Frames: 12, SegmentDuration: 10 * time.Second, PartDuration: 100 * time.Millisecond}, // a single segment
 		{PathName: "cam", Video: true, Audio: true, GOP: 5, FPS: 25, Frames: 80, SegmentDuration: time.Second, PartDuration: 200 * time.Millisecond, AudioLag: 700 * time.Millisecond},
+		{PathName: "cam", Video: true, Audio: true, GOP: 5, FPS: 25, Frames: 70, SegmentDuration: time.Second, PartDuration: 200 * time.Millisecond, AudioLag: -180 * time.Millisecond}, // the audio track (fewer ticks per second) ends last
 		{PathName: "cam", Video: true, Audio: true, GOP: 5, FPS: 25, Frames: 80, SegmentDuration: time.Second, PartDuration: 200 * time.Millisecond, BasePTS: 30 * time.Hour},
 		{PathName: "cam", Video: true, GOP: 4, FPS: 20, Frames: 70, SegmentDuration: time.Second, PartDuration: 100 * time.Millisecond, BasePTS: 40 * time.Hour},
 	}
@@ -78,7 +79,7 @@ func TestVerifC27(t *testing.T) {
 	images := 0
 	for si := 0; si < len(specs); si++ {
 		spec := specs[(si+int(r.Seed())-1)%len(specs)]
-		imagesToo := si < nSpecs // every recording is checked as closed; crash images are enumerated for the first ones
+		imagesToo := si < nSpecs || spec.AudioLag < 0 // every recording is checked as closed; crash images are enumerated for the first ones and for the leading-audio one
 		spec.StartNTP = start
 		spec.SnapshotOpen = true
 		os.RemoveAll(filepath.Join(dir, "rec")) //nolint:errcheck
